@@ -510,6 +510,8 @@ void HistSim::step(const Op& op, size_t ix) {
 void HistSim::finish() {
   if (!real_)
     return;
+  for (auto& a : allocs_)
+    a->faults.bernoulliDen = 0;  // "as soon as allocation succeeds again"
   // 1. clear every document: everything returns to the allocator; overflowed resets
   for (int d = 0; d < ndocs(); d++) {
     auto& ds = docs_[size_t(d)];
@@ -836,6 +838,8 @@ Options optionsFromHead(const Op& head) {
   o.inspect = head.num("inspect", 1) != 0;
   o.srcSeed = head.unum("srcseed", 1);
   o.skipKnown = head.num("skipknown", 1) != 0;
+  o.bernDen = unsigned(head.unum("bern", 0));
+  o.bernSeed = head.unum("bseed", 0);
   // operation signatures recorded in /verif/known_findings.jsonl (see DESIGN §3.9); the
   // list is compiled in so that the executor and the plan are the whole story
   static const char* known[] = {
@@ -873,8 +877,13 @@ Plan generate(const std::string& mode, uint64_t seed, uint64_t run) {
   g.vo.maxWidth = 4;
   g.vo.maxStr = 40;
   size_t nops;
-  if (mode == "fault" || mode == "faultenum")
+  if (mode == "fault" || mode == "faultenum" || mode == "faultrand")
     nops = size_t(r.range(3, 25));
+  if (mode == "faultrand") {
+    // random multi-failure subsets: every failable call fails with probability 1/bern
+    static const unsigned dens[] = {2, 3, 5, 10, 25};
+    p.head.set("bern", dens[r.below(5)]).setu("bseed", r.next() & 0xFFFFFF);
+  }
   else
     nops = r.chance(1, 5) ? size_t(r.range(40, 80)) : size_t(r.range(5, 40));
   if (mode == "limit") {
